@@ -120,6 +120,29 @@ def run_variants(chk, n):
         pl = rc.replay_payload(py, b, rep, sp, why="Component.render(slots=…) differs from the tag")
         chk.violation("impl-violates-spec", "variants/Component.render", pl["program"], impl=pl["real"],
                       spec={"tag": a["err"] or tplgen.canon_real(a["out"], a["hash2name"])}, note=" || ".join(pl["source"]))
+    # (c) a `Slot` object fills the slot it is passed under, whatever name it already carries (forwarded slots)
+    for i in range(n):
+        r = core.rng(PROP, "variants-slotobj", i)
+        g = tplgen.Gen(r, dict(PROFILE))
+        p = g.program()
+        name = p["lib"][0]["name"]
+        kw = [[k, tplgen.sval(g.word())] for k in r.sample(tplgen.KEYS + tplgen.SCALARS, r.randint(0, 3))]
+        slots = [[s, g.word() + g.word()] for s in r.sample(tplgen.SLOTS + ["default"], r.randint(1, 3))]
+        e1 = {"comp": name, "kwargs": kw, "slots": slots, "slot_mode": "slotobj"}
+        e2 = dict(e1, slot_mode="slotobj-named")
+        a = tplgen.run_real(dict(p, entry=e1, ctx=[]), limit=20.0)
+        b = tplgen.run_real(dict(p, entry=e2, ctx=[]), limit=20.0)
+        chk.count("variants/Slot-objects", 1, validated=2)
+        chk.branch(["slotobj:" + ("err" if a["err"] else "ok")])
+        same = (a["err"] == b["err"]) and (a["out"] is None or tplgen.canon_real(a["out"], a["hash2name"]) ==
+                                           tplgen.canon_real(b["out"], b["hash2name"]))
+        if same:
+            continue
+        chk.violation("impl-violates-spec", "variants/Slot-objects",
+                      dict(p, entry=e2, ctx=[]),
+                      impl=b["err"] or tplgen.canon_real(b["out"], b["hash2name"]),
+                      spec={"nameless Slot objects": a["err"] or tplgen.canon_real(a["out"], a["hash2name"])},
+                      note="Component.render(slots={k: Slot(fn, slot_name=<another name>)}) must fill slot k like Slot(fn) does")
 
 
 def run_refill(chk, n):
@@ -232,4 +255,20 @@ def run(tier: str) -> int:
 
 
 def replay(doc) -> int:
+    if doc.get("stream") == "variants/Slot-objects":
+        core.use_repo()
+        core.django_setup()
+        inp = doc["input"]
+        e2 = inp["entry"]
+        e1 = dict(e2, slot_mode="slotobj")
+        a = tplgen.run_real(dict(inp, entry=e1), limit=20.0)
+        b = tplgen.run_real(dict(inp, entry=e2), limit=20.0)
+        ca = a["err"] or tplgen.canon_real(a["out"], a["hash2name"])
+        cb = b["err"] or tplgen.canon_real(b["out"], b["hash2name"])
+        print("nameless Slot objects :", ca)
+        print("named Slot objects    :", cb)
+        if ca != cb:
+            print("VIOLATION property=%s replay=%s" % (PROP, doc.get("how", "").split("--replay ")[-1]))
+            return 1
+        return 0
     return rc.replay(PROP, doc)
